@@ -268,6 +268,11 @@ class ZeroWorld:
                 if st["k"] == "assign" and st["rv"]["k"] == "binop" and st["rv"]["op"] in ("Rem", "Div"):
                     if self.val(bi.T.of_operand(st["rv"]["b"]), env) == 0:
                         res.divzero.append((b, st.get("sp", "")))
+            # widening: counters that keep growing carry no information in the zero world
+            for k_ in list(env):
+                v_ = env[k_]
+                if isinstance(v_, int) and not isinstance(v_, bool) and (v_ > 8 or v_ < 0):
+                    env[k_] = None
             envt2 = tuple(sorted(env.items(), key=lambda kv: str(kv[0])))
             for tb in succs:
                 if tb is None or body.is_cleanup(tb):
